@@ -6,7 +6,7 @@ from ..core import Clause, Violation
 
 RULE = ("Cases: Hypothesis-drawn feature arrays x [nx x d], y [ny x d] with d in 1..4, nx, ny in 1..200 (small sizes "
         "over-weighted), continuous or small-integer (tie-rich) values, arbitrary row order, K in 1..15, "
-        "distance_upper_bound in {inf, moderate, tight}; 1-feature inputs also passed as vectors. Oracle "
+        "distance_upper_bound in {inf, moderate, tight}; 1-feature inputs also passed as vectors; (sequence) two calls through the same array objects with the contents replaced in place in between. Oracle "
         "(validity predicate, many pairings are acceptable): equal-length index lists, indices in range, no x row "
         "twice, no y row twice, every pair within the bound and within the K-th nearest-neighbour distance of its "
         "x row (ties allowed, 1e-9). Non-trivial: >=2 x rows have the same nearest y row.")
@@ -84,7 +84,55 @@ def oracle(case, rec):
     return compete
 
 
+@st.composite
+def seq_case(draw):
+    c1 = draw(case())
+    k2 = draw(st.integers(0, 2**32 - 1))
+    return {'x': c1['x'], 'y': c1['y'], 'K': c1['K'], 'bound': c1['bound'], 'vector': False, 'k2': k2,
+            'reuse': draw(st.sampled_from(['y-in-place', 'x-in-place', 'both']))}
+
+
+def oracle_seq(case, rec):
+    """Two matchings through the same array objects, the contents replaced in place in between: each result must be a
+    valid pairing of the data it was given (no state may survive from the first call)."""
+    import emd
+    x = np.ascontiguousarray(case['x'], dtype=float)
+    y = np.ascontiguousarray(case['y'], dtype=float)
+    rng = np.random.default_rng(case['k2'])
+    first = dict(case, x=x.copy(), y=y.copy())
+    oracle(first, rec)
+    xbuf, ybuf = x.copy(), y.copy()
+    emd.cycles.kdt_match(xbuf, ybuf, K=int(case['K']))
+    x2 = x.copy()
+    y2 = y.copy()
+    if case['reuse'] in ('y-in-place', 'both'):
+        y2 = rng.permutation(y, axis=0) * (1 + rng.random()) + rng.standard_normal(y.shape[1])
+        ybuf[:] = y2
+    if case['reuse'] in ('x-in-place', 'both'):
+        x2 = rng.permutation(x, axis=0) + 0.5 * rng.standard_normal(x.shape)
+        xbuf[:] = x2
+    D = np.sqrt(((x2[:, None, :] - y2[None, :, :]) ** 2).sum(axis=2))
+    K = int(case['K'])
+    xi, yi = emd.cycles.kdt_match(xbuf, ybuf, K=K)
+    xi, yi = np.asarray(xi), np.asarray(yi)
+    if xi.shape != yi.shape or len(set(xi.tolist())) != xi.size or len(set(yi.tolist())) != yi.size:
+        raise Violation('C17/sequence/not-one-to-one', '')
+    for a, b in zip(xi.tolist(), yi.tolist()):
+        row = np.sort(D[a])
+        kth = row[min(K, row.size) - 1]
+        if D[a, b] > kth * (1 + 1e-9) + 1e-12:
+            raise Violation('C17/sequence/stale-result-after-in-place-change/' + case['reuse'],
+                            'pair (%d,%d) at distance %r but the K-th nearest neighbour of that row is at %r' % (a, b, D[a, b], kth))
+    fresh = emd.cycles.kdt_match(x2.copy(), y2.copy(), K=K)
+    if not (np.array_equal(fresh[0], xi) and np.array_equal(fresh[1], yi)):
+        raise Violation('C17/sequence/result-depends-on-earlier-call/' + case['reuse'], '')
+    rec.cls('reuse=' + case['reuse'])
+    return True
+
+
 CLAUSES = [
+    Clause('C17.sequence', oracle_seq, strategy=seq_case(), quick=800, thorough=20000, shards=(4, 16),
+           nt_rule='every evaluated two-call sequence'),
     Clause('C17.valid', oracle, strategy=case(), quick=3000, thorough=80000, shards=(4, 16),
            nt_rule='>=2 x rows compete for the same nearest y row'),
 ]
